@@ -504,6 +504,18 @@ func (ec *evalCtx) specCall(call *ast.CallExpr) Value {
 		// the channel is fresh) and its capacity
 		need(1)
 		return App(map[string]string{"chantag": "chan.tag", "chancap": "chan.cap"}[name], SInt, scalar(arg(0)))
+	case "chanopen":
+		need(1)
+		return Select(chanOpenArr(ec.st), scalar(arg(0)))
+	case "implements":
+		// implements(x, T): the dynamic type of the interface value x implements the interface type T
+		need(2)
+		iv, ok := arg(0).(*IfaceV)
+		if !ok {
+			panic(unsupported("implements of %T", arg(0)))
+		}
+		t := ec.e().evalTypeExpr(ec.pkg, ec.typePos(), call.Args[1])
+		return And(Not(Eq(iv.Tag, Int(0))), App("implements:"+types.TypeString(t, nil), SBool, iv.Tag))
 	case "freshchan":
 		need(1)
 		if c, ok := arg(0).(*Term); ok && c.Op == "var" {
